@@ -27,8 +27,8 @@ def spine_cfg():
 
 
 def spine_config(name, wins, maxd, opsel, poolsel, quants=QUANTS_SMALL, names=('n',), strs=(), workers=8,
-                 timeout=3000, params=None, semlen=0):
-    return dict(name=name, module='PregexSpine', cfg=spine_cfg(), workers=workers, timeout=timeout,
+                 timeout=14000, params=None, semlen=0, sample=1):
+    return dict(name=name, module='PregexSpine', cfg=spine_cfg(), workers=workers, timeout=timeout, sample=sample,
                 invariants=SPINE_INVARIANTS + SPINE_PROPS, params=params or {},
                 defs={'Wins': set(tuple(w) for w in wins), 'MaxD': maxd, 'OpSel': set(opsel),
                       'PoolSel': set(poolsel), 'Quants': set(quants), 'Names': set(names),
@@ -63,8 +63,9 @@ def compose_configs(tier, seed):
             random_term_configs(tier, seed) + test_suite_term_configs()
     return [spine_config('depth1-fullpool', wins, 1, ALL_OPS | {'cond'}, FULL_POOL | {'focusall', 'lit3'}),
             spine_config('depth1-calibration', wins[:8], 1, ALL_OPS, FULL_POOL | {'focusall'}, semlen=3),
-            spine_config('depth2-fullpool', wins[:3], 2, ALL_OPS, FULL_POOL),
-            spine_config('depth3-leaves', wins[:2], 3, ALL_OPS - {'enclose'}, set(), quants=QUANTS_TWO, names=())] + \
+            spine_config('depth2-midpool', wins[:1], 2, ALL_OPS, {'class', 'alt', 'cat', 'quant', 'group', 'assert'}),
+            spine_config('depth2-fullpool-sampled', wins[1:2], 2, ALL_OPS, FULL_POOL, sample=6),
+            spine_config('depth3-leaves', wins[:1], 3, ALL_OPS - {'enclose'}, set(), quants=QUANTS_TWO, names=())] + \
         random_term_configs(tier, seed) + test_suite_term_configs()
 
 
@@ -144,8 +145,8 @@ def empty_configs(tier, seed):
         return [spine_config('empty-depth1', wins[:3], 1, ALL_OPS | {'cond', 'unary'}, pool | {'focusall'}),
                 spine_config('empty-depth2', wins[:1], 2, ALL_OPS - {'enclose', 'look'}, {'empty', 'emptyforms'}, quants=QUANTS_TWO, names=())]
     return [spine_config('empty-depth1', wins[:10], 1, ALL_OPS | {'cond'}, pool | {'focusall', 'token', 'wb'}),
-            spine_config('empty-depth2', wins[:3], 2, ALL_OPS, {'empty', 'emptyforms', 'class'}, quants=QUANTS_TWO),
-            spine_config('empty-depth3', wins[:1], 3, ALL_OPS - {'enclose', 'look'}, {'empty', 'emptyforms'}, quants=QUANTS_TWO, names=())]
+            spine_config('empty-depth2', wins[:1], 2, ALL_OPS, {'empty', 'emptyforms', 'class'}, quants=QUANTS_TWO),
+            spine_config('empty-depth3-sampled', wins[:1], 3, ALL_OPS - {'enclose', 'look'}, {'empty', 'emptyforms'}, quants=QUANTS_TWO, names=(), sample=5)]
 
 
 # ----------------------------------------------------------------------------- C08
@@ -158,7 +159,8 @@ def group_configs(tier, seed):
                 spine_config('group-in-context', ctxwins[:1], 2, {'group', 'concat', 'either', 'quant'}, {'group', 'alt', 'nested', 'focusall'}, quants=QUANTS_TWO, names=('n', 'm')),
                 spine_config('group-concat-group', ctxwins[:1], 3, {'group', 'concat'}, {'nolit'}, names=('n', 'nn'))]
     return [spine_config('group-nesting-4', wins[:6], 4, {'group'}, pool, names=('n', 'm')),
-            spine_config('group-in-context', ctxwins[:4], 3, {'group', 'concat', 'either', 'quant'}, {'group', 'alt', 'nested', 'focusall'}, quants=QUANTS_TWO, names=('n', 'm')),
+            spine_config('group-in-context', ctxwins[:4], 2, {'group', 'concat', 'either', 'quant'}, {'group', 'alt', 'nested', 'focusall'}, quants=QUANTS_TWO, names=('n', 'm')),
+            spine_config('group-in-context-depth3-sampled', ctxwins[:1], 3, {'group', 'concat', 'either', 'quant'}, {'group', 'alt', 'nested', 'focusall'}, quants=QUANTS_TWO, names=('n', 'm'), sample=4),
             spine_config('group-concat-group', ctxwins[:3], 4, {'group', 'concat'}, {'nolit'}, names=('n',))]
 
 
@@ -173,7 +175,7 @@ def repeat_configs(tier, seed):
               ('Mul', 0, 0, True), ('Mul', 1, 1, True), ('Mul', 2, 2, True)}
     cfgs = [spine_config('quantify-literals', [(120, 121, 122)], 1, {'quant'}, {'strs', 'pregexstrs', 'minpool'},
                          quants=quants, strs=strs),
-            spine_config('quantify-assertions', wins[:1] if tier == 'quick' else wins[:8], 2,
+            spine_config('quantify-assertions', wins[:1] if tier == 'quick' else wins[:2], 2,
                          {'quant', 'anchor', 'look', 'group', 'either'} if tier == 'quick' else ALL_OPS,
                          {'empty', 'wb'} if tier == 'quick' else {'empty', 'class', 'wb', 'alt', 'token'},
                          quants=quants)]
@@ -191,9 +193,9 @@ def width_configs(tier, seed):
                 spine_config('lookbehind-of-derived', wins[:1], 2, {'look', 'quant'}, {'minpool', 'alt', 'quant', 'focusall'},
                              quants={('Optional', 0, 1, True), ('Exactly', 2, 2, True), ('AtLeastAtMost', 1, 2, True), ('Mul', 3, 3, True)}, names=()),
                 spine_config('lookbehind-pool', wins[:3], 1, {'look'}, pool | {'focusall', 'lit3'}, quants=quants)]
-    return [spine_config('lookbehind-depth2', wins[:8], 2, ALL_OPS, {'class', 'alt', 'empty'}, quants=quants, names=()),
+    return [spine_config('lookbehind-depth2', wins[:4], 2, ALL_OPS, {'class', 'alt', 'empty'}, quants=quants, names=()),
             spine_config('lookbehind-pool', wins, 1, {'look'}, pool | {'focusall', 'lit3'}, quants=quants),
-            spine_config('lookbehind-depth3', wins[:2], 3, {'look', 'quant', 'either', 'concat'}, {'class'}, quants=QUANTS_TWO | {('Exactly', 2, 2, True)}, names=())]
+            spine_config('lookbehind-depth3-sampled', wins[:1], 3, {'look', 'quant', 'either', 'concat'}, {'class'}, quants=QUANTS_TWO | {('Exactly', 2, 2, True)}, names=(), sample=5)]
 
 
 # ----------------------------------------------------------------------------- C03 (builder part)
@@ -210,9 +212,9 @@ def total_configs(tier, seed):
     if tier == 'quick':
         return [spine_config('argspace-depth1', wins[:3], 1, ops, pool, quants=quants),
                 spine_config('trees-depth2', wins[:1], 2, ALL_OPS - {'enclose'}, {'bad'}, quants=QUANTS_TWO, names=())]
-    return [spine_config('argspace-depth1', wins, 1, ops, pool | {'lit3'}, quants=quants),
-            spine_config('trees-depth2', wins[:4], 2, ops, FULL_POOL | {'bad'}, quants=QUANTS_SMALL),
-            spine_config('trees-depth3', wins[:2], 3, ALL_OPS - {'enclose'}, {'bad'}, quants=QUANTS_TWO, names=())]
+    return [spine_config('argspace-depth1', wins[:24], 1, ops, pool | {'lit3'}, quants=quants),
+            spine_config('trees-depth2', wins[:1], 2, ops, {'class', 'alt', 'quant', 'group', 'assert', 'bad'}, quants=QUANTS_SMALL),
+            spine_config('trees-depth3', wins[:1], 3, ALL_OPS - {'enclose'}, {'bad'}, quants=QUANTS_TWO, names=())]
 
 
 def terms_config(name, terms):
